@@ -63,7 +63,7 @@ def specGuard (decl : List Const) (cur : Name → Option Int) : Bool :=
 
 /-! ### regions of C04 (also the enum-level part of C12 and C14)
 
-* grammar (`grammarOK`): the type name is not empty; names and values are aligned; every value is a value
+* grammar (`grammarOK`): the type name is not empty; the kind has at least one bit; names and values are aligned; every value is a value
   of the kind; no spec gets type T through a typed expression (`X = T(5)`): the property's
   grammar has every constant of T introduced by an explicit `T` or carried down from one.
   Outside ⇒ `Out`.
@@ -84,7 +84,7 @@ def specOK (T : Name) (k : Kind) (s : VSpec) : Bool :=
     !(s.ty.isNone && s.hasVals && s.exprTy == some T)
 
 def grammarOK (i : Input) : Bool :=
-  !i.T.isEmpty && i.blocks.all (fun b => b.all (specOK i.T i.kind))
+  !i.T.isEmpty && decide (0 < i.kind.bits) && i.blocks.all (fun b => b.all (specOK i.T i.kind))
 
 def nodupOK (T : Name) (decl : List Const) : Bool :=
   decide (decl.map (·.val)).Nodup && decide (decl.map (fun c => trim T c.name)).Nodup &&
